@@ -2,7 +2,7 @@
 # sweep.sh <tier> <seeds...> : runs every registered check at the given tier and seeds,
 # prints one line per run. For use with `vp run` (background sweeps).
 tier="$1"; shift
-ids=$(python3 -c "import json;print(' '.join(c['property_id'] for c in json.load(open('MANIFEST.json'))['checks']))")
+ids=${SWEEP_IDS:-$(python3 -c "import json;print(' '.join(c['property_id'] for c in json.load(open('MANIFEST.json'))['checks']))")}
 for seed in "$@"; do
   for id in $ids; do
     start=$(date +%s)
